@@ -179,7 +179,9 @@ CHECKS['C08'] = dict(
           'prepared, fresh apps execute nothing, recorded labels are never executed again, a failed run records '
           'nothing, records carry the version of their run; kernel-checked counterexample for mark-evolution-applied '
           'on a never-evolved app (F40, predicted by the model and confirmed on the real code); that Evolver.evolve keeps '
-          'the new evolutions of every task is read from the source (C08_source_collects_all). Recorded rows and '
+          'the new evolutions of every task is read from the source (C08_source_collects_all); on every path through the '
+          'generated skeleton of execute_tasks a task is executed only when the current batch holds SQL for it, so the '
+          'SQL of another batch is not run a second time (C08_task_runs_only_batch_sql). Recorded rows and '
           'executed labels after every step of generated histories are compared with the model.'),
     design='§5 C08',
     note=COMMON_NOTE + 'The model records what a task plans to apply; whether SQL is emitted for a re-recorded label depends on the signature diff (subset relation checked).')
